@@ -266,14 +266,28 @@ pub fn write_evidence(e: EvidenceInput) {
     }
 }
 
+thread_local! {
+    static MIN_DEADLINE: std::cell::Cell<Option<std::time::Instant>> = const { std::cell::Cell::new(None) };
+}
+
+/// Starts the wall-clock budget of one minimisation (checked by `ddmin`; soak plans with 10^5
+/// operations would otherwise be minimised for hours).
+pub fn start_minimisation(seconds: u64) {
+    MIN_DEADLINE.with(|d| d.set(Some(std::time::Instant::now() + std::time::Duration::from_secs(seconds))));
+}
+
+pub fn minimisation_expired() -> bool {
+    MIN_DEADLINE.with(|d| d.get().map(|t| std::time::Instant::now() > t).unwrap_or(false))
+}
+
 /// Classic ddmin over a vector; `test` returns true when the failure persists.
 pub fn ddmin<T: Clone>(mut items: Vec<T>, budget: &mut usize, mut test: impl FnMut(&[T]) -> bool) -> Vec<T> {
     let mut n = 2usize;
-    while items.len() >= 2 && *budget > 0 {
+    while items.len() >= 2 && *budget > 0 && !minimisation_expired() {
         let chunk = items.len().div_ceil(n);
         let mut reduced = false;
         let mut start = 0;
-        while start < items.len() && *budget > 0 {
+        while start < items.len() && *budget > 0 && !minimisation_expired() {
             let end = (start + chunk).min(items.len());
             let mut cand = items[..start].to_vec();
             cand.extend_from_slice(&items[end..]);
